@@ -142,7 +142,7 @@ static const void *__vf_sel_ti;
 static int vf_ti_match(const void *thrown, const void *want)
 {
   if (thrown == want) return 1;
-  for (int i = 0; __vf_ti_tab[i].ti; i++) if (__vf_ti_tab[i].ti == thrown && __vf_ti_tab[i].anc == want) return 1;
+  for (int i = 0; __vf_ti_tab[i].ti; i++) if (__vf_ti_tab[i].anc == want && __vf_ti_tab[i].ti == thrown) return 1;   /* constant test first: no path split for unrelated rows */
   return 0;
 }
 uint32_t __vf_landing(void **clauses, int n, int cleanup)
